@@ -1,200 +1,352 @@
 (* Proofs/CallMain.v — the C06 theorems about Call/Model.v. *)
-From Coq Require Import List Bool Arith NArith Permutation.
+From Coq Require Import List Bool Arith NArith.
 Import ListNotations.
 Require Import PV.TypeVar.Base PV.TypeVar.Model PV.TypeVar.Spec PV.Call.Model.
-Require Import PV.Proofs.SolveCall PV.Proofs.CallBind.
+Require Import PV.Binder.Kind PV.Binder.Sig PV.Binder.Bind PV.Binder.PyBind.
+Require Import PV.Proofs.BinderConcrete PV.Proofs.BinderValid PV.Proofs.BinderStar PV.Proofs.BinderMain PV.Proofs.SolveCall.
 
 Section CallMain.
   Context {V : Type} (O : ops V) (limit : nat).
-  Context {Obj : Type} (val : Obj -> V).
-  (* runtime membership of an argument object in a static type (the specification) *)
-  Context (member : Obj -> V -> bool).
 
-  Notation param := (@param V).
-  Notation barg := (@barg Obj).
-
-  Lemma pass2_in : forall sol (b : list (param * barg)) n,
-    In (IncompatibleArgument n) (pass2 O val sol b) <->
-    exists p ba, In (p, ba) b /\ pname p = n /\ arg_fits O val (sub sol (ann p)) ba = false.
+  Lemma actuals_concrete : forall (c : @ccall V), concrete_call c = true -> concrete (actuals_of c).
   Proof.
-    intros sol b n. unfold pass2. rewrite in_flat_map. split.
-    - intros [[p ba] [Hin H]]. destruct (arg_fits O val (sub sol (ann p)) ba) eqn:E; [destruct H|].
-      destruct H as [H|[]]. injection H as <-. exists p, ba. auto.
-    - intros [p [ba [Hin [<- E]]]]. exists (p, ba). split; [exact Hin|]. rewrite E. left. reflexivity.
+    intros c H. unfold concrete_call in H. apply andb_prop in H. destruct H as [H1 H2].
+    unfold concrete, actuals_of; cbn. repeat split.
+    - destruct (a_star c); [discriminate|reflexivity].
+    - destruct (a_starkw c); [discriminate|reflexivity].
+    - induction (a_pos c); cbn; auto.
+    - induction (a_kw c) as [|[n v] l IH]; cbn; auto.
   Qed.
 
-  Lemma pass2_nil : forall sol (b : list (param * barg)),
-    pass2 O val sol b = [] <-> forall p ba, In (p, ba) b -> arg_fits O val (sub sol (ann p)) ba = true.
+  Lemma actuals_kw_names : forall (c : @ccall V), map fst (keywords (actuals_of c)) = map fst (a_kw c).
+  Proof. intros c. cbn. induction (a_kw c) as [|[n v] l IH]; cbn; [reflexivity|]. f_equal. exact IH. Qed.
+
+  (* C05 composed: for a concrete call the model reports a binding failure
+     exactly when CPython cannot bind the call *)
+  Theorem binding_failure_iff_cpython_rejects : forall (s : @csig V) c,
+    valid_sig (sig_of s) = true -> concrete_call c = true -> names_nodup (map fst (a_kw c)) = true ->
+    (cbind s c = None <-> py_bind (sig_of s) (length (a_pos c)) (map fst (a_kw c)) = false).
+  Proof.
+    intros s c Hv Hc Hn.
+    pose proof (bind_concrete_iff_pybind (sig_of s) (actuals_of c) Hv (actuals_concrete c Hc)) as H.
+    rewrite actuals_kw_names in H. specialize (H Hn).
+    assert (Hl : length (positionals (actuals_of c)) = length (a_pos c)) by (cbn; apply map_length).
+    rewrite Hl in H. rewrite <- H. unfold accepts, cbind.
+    destruct (bind (sig_of s) (actuals_of c)); split; intros; congruence.
+  Qed.
+
+  Lemma actuals_definite : forall (c : @ccall V), definite (actuals_of c).
+  Proof.
+    intros c. unfold definite, actuals_of; cbn. split.
+    - induction (a_pos c); cbn; auto.
+    - induction (a_kw c) as [|[n v] l IH]; cbn; auto.
+  Qed.
+
+  (* C05 composed, star arguments: a call the model does not report as a binding failure
+     has an expansion of its star arguments that CPython binds *)
+  Theorem bound_star_call_has_binding_expansion : forall (s : @csig V) c b,
+    valid_sig (sig_of s) = true -> names_nodup (map fst (a_kw c)) = true -> cbind s c = Some b ->
+    exists npos' kws', expansion (actuals_of c) npos' kws' /\ py_bind (sig_of s) npos' kws' = true.
+  Proof.
+    intros s c b Hv Hn Hb.
+    apply (bind_star_accept_sound (sig_of s) (actuals_of c) Hv (actuals_definite c)).
+    - rewrite actuals_kw_names. exact Hn.
+    - unfold accepts. unfold cbind in Hb. destruct (bind (sig_of s) (actuals_of c)); [reflexivity|discriminate].
+  Qed.
+End CallMain.
+
+Section CallThms.
+  Context {V : Type} (O : ops V) (limit : nat).
+  Notation cparam := (@cparam V).
+  Notation barg := (@barg V).
+
+  Lemma pass2_nil : forall sol (b : list (cparam * barg)),
+    pass2 O sol b = [] <-> forall p ba, In (p, ba) b -> fits O sol (ann p) ba = true.
   Proof.
     intros sol b. unfold pass2. induction b as [|[p ba] b IH]; cbn; [split; [intros _ ? ? []|reflexivity]|].
-    destruct (arg_fits O val (sub sol (ann p)) ba) eqn:E; cbn.
+    destruct (fits O sol (ann p) ba) eqn:E; cbn.
     - rewrite IH. split.
       + intros H q qa [Hq|Hq]; [injection Hq as <- <-; exact E|apply H, Hq].
       + intros H q qa Hq. apply H. right. exact Hq.
     - split; [intros HH; discriminate HH|]. intros H. specialize (H p ba (or_introl eq_refl)). congruence.
   Qed.
 
-  Lemma pass2_only_arguments : forall sol (b : list (param * barg)) d,
-    In d (pass2 O val sol b) -> exists n, d = IncompatibleArgument n.
+  Lemma pass2_in : forall sol (b : list (cparam * barg)) d,
+    In d (pass2 O sol b) <->
+    exists p ba, In (p, ba) b /\ d = IncompatibleArgument (pname (cp p)) /\ fits O sol (ann p) ba = false.
   Proof.
-    intros sol b d H. unfold pass2 in H. apply in_flat_map in H. destruct H as [[p ba] [_ H]].
-    destruct (arg_fits O val (sub sol (ann p)) ba); [destruct H|]. destruct H as [<-|[]]. eauto.
+    intros sol b d. unfold pass2. rewrite in_flat_map. split.
+    - intros [[p ba] [Hin H]]. destruct (fits O sol (ann p) ba) eqn:E; [destruct H|].
+      destruct H as [<-|[]]. exists p, ba. auto.
+    - intros [p [ba [Hin [-> E]]]]. exists (p, ba). split; [exact Hin|]. rewrite E. left. reflexivity.
   Qed.
 
   (* shape of an accepted call *)
   Theorem check_call_accepted_iff : forall s c,
-    fst (check_call O limit val s c) = [] <->
-    exists b sol, bind s c = Some b /\ pass1_fail O limit val (tdecl s) b = None /\
-      mresolve O limit (flat_map (arg_bounds (tdecl s)) (t_values val b)) = Sol sol /\
-      forall p ba, In (p, ba) b -> arg_fits O val (sub sol (ann p)) ba = true.
+    fst (check_call O limit s c) = [] <->
+    exists b l, cbind s c = Some b /\ pass1 O limit s b = inr l /\ resolve_ok O limit l = true /\
+      forall p ba, In (p, ba) b -> fits O (sol_of O limit l) (ann p) ba = true.
   Proof.
-    intros s c. unfold check_call. destruct (bind s c) as [b|]; cbn.
-    2:{ split; [intros HH; discriminate HH|]. intros [b [sol [H _]]]. discriminate H. }
-    destruct (pass1_fail O limit val (tdecl s) b) as [n|] eqn:Ep; cbn.
-    { split; [intros HH; discriminate HH|]. intros [b' [sol [H1 [H2 _]]]]. injection H1 as <-. congruence. }
-    destruct (mresolve O limit _) as [sol|] eqn:Er; cbn.
-    2:{ split; [intros HH; discriminate HH|]. intros [b' [sol [H1 [_ [H3 _]]]]]. injection H1 as <-. congruence. }
-    rewrite pass2_nil. split.
-    - intros H. exists b, sol. auto.
-    - intros [b' [sol' [H1 [_ [H3 H4]]]]]. injection H1 as <-. assert (sol' = sol) by congruence. subst. exact H4.
+    intros s c. unfold check_call. destruct (cbind s c) as [b|]; cbn.
+    2:{ split; [intros HH; discriminate HH|]. intros [b [l [H _]]]. discriminate H. }
+    destruct (pass1 O limit s b) as [n|l] eqn:Ep; cbn.
+    { split; [intros HH; discriminate HH|]. intros [b' [l [H1 [H2 _]]]]. injection H1 as <-. congruence. }
+    destruct (resolve_ok O limit l) eqn:Er; cbn.
+    - rewrite pass2_nil. split.
+      + intros H. exists b, l. auto.
+      + intros [b' [l' [H1 [H2 [_ H4]]]]]. injection H1 as <-. assert (l' = l) by congruence. subst. exact H4.
+    - split; [intros HH; discriminate HH|]. intros [b' [l' [H1 [H2 [H3 _]]]]]. injection H1 as <-.
+      assert (l' = l) by congruence. subst. congruence.
   Qed.
 
-  (* signatures that do not mention the type variable *)
-  Lemma no_vars_t_values : forall (b : list (param * barg)),
-    forallb (fun p => negb (is_var (ann p))) (map fst b) = true -> t_values val b = [].
+  (* an accepted call comes with a solution for every type variable under which every
+     bound argument value fits the substituted annotation, and the inferred type is the
+     substituted return annotation — otherwise an error is reported *)
+  Theorem accepted_call_arguments_fit : forall s c,
+    diagnosed O limit s c = false ->
+    exists b sol, cbind s c = Some b /\ snd (check_call O limit s c) = inferred O sol (cret s) /\
+      forall p vs x, In (p, BVals vs) b -> In x vs -> fits1 O sol (ann p) x = true.
   Proof.
-    induction b as [|[p ba] b IH]; cbn; [reflexivity|]. intros H. apply andb_prop in H. destruct H as [H1 H2].
-    destruct (is_var (ann p)); [discriminate|]. cbn. apply IH, H2.
+    intros s c Hd. unfold diagnosed in Hd.
+    destruct (fst (check_call O limit s c)) eqn:E; [|discriminate].
+    apply check_call_accepted_iff in E. destruct E as [b [l [Hb [H1 [Hr Hfit]]]]].
+    exists b, (sol_of O limit l). split; [exact Hb|]. split.
+    - unfold check_call. rewrite Hb, H1, Hr. reflexivity.
+    - intros p vs x Hin Hx. specialize (Hfit p (BVals vs) Hin). cbn in Hfit.
+      rewrite forallb_forall in Hfit. apply Hfit, Hx.
   Qed.
 
-  Lemma no_vars_pass1 : forall d (b : list (param * barg)),
-    forallb (fun p => negb (is_var (ann p))) (map fst b) = true -> pass1_fail O limit val d b = None.
+  (* the solver-level findings of C15 cannot surface in an accepted call: every
+     callback's parameter type (an UPPER bound of T_k) accepts the value chosen for T_k,
+     and the callback's result is accepted by the value chosen for its result variable *)
+  Theorem accepted_call_respects_callback_bounds : forall s c,
+    diagnosed O limit s c = false ->
+    exists b sol, cbind s c = Some b /\
+      forall p vs k r pv qv, In (p, BVals vs) b -> ann p = AnnFun k r -> In (AFun pv qv) vs ->
+        acc O pv (sol k) = true /\ (forall j, r = RVar j -> acc O (sol j) qv = true).
   Proof.
-    intros d b H. unfold pass1_fail.
-    assert (Hf : find (fun '(p, ba) => is_var (ann p) &&
-                  negb (forallb (fun o => arg_ok O limit d (val o)) (objs_of ba))) b = None).
-    { induction b as [|[p ba] b IH]; cbn; [reflexivity|]. cbn in H. apply andb_prop in H. destruct H as [H1 H2].
-      destruct (is_var (ann p)); [discriminate|]. cbn. apply IH, H2. }
-    rewrite Hf. reflexivity.
+    intros s c Hd. destruct (accepted_call_arguments_fit s c Hd) as [b [sol [Hb [_ Hfit]]]].
+    exists b, sol. split; [exact Hb|]. intros p vs k r pv qv Hin Ea Hx.
+    specialize (Hfit p vs (AFun pv qv) Hin Hx). rewrite Ea in Hfit. cbn in Hfit.
+    apply andb_prop in Hfit. destruct Hfit as [H1 H2]. split; [exact H1|].
+    intros j ->. exact H2.
   Qed.
 
-  Lemma sub_no_var : forall sol sol' (a : @annot V), is_var a = false -> sub sol a = sub sol' a.
-  Proof. intros sol sol' [|t|] H; try reflexivity. discriminate. Qed.
+  (* ---- signatures without type variables ---- *)
+  Lemma no_tv_pass1 : forall s (b : list (cparam * barg)),
+    forallb (fun p => negb (has_tv (ann p))) (map fst b) = true -> pass1 O limit s b = inr [].
+  Proof.
+    intros s b. induction b as [|[p ba] b IH]; cbn; [reflexivity|]. intros H.
+    apply andb_prop in H. destruct H as [H1 H2]. destruct (has_tv (ann p)); [discriminate|].
+    rewrite (IH H2). reflexivity.
+  Qed.
 
-  (* Non-generic signatures: the diagnostics are exactly one incompatible_argument
-     per parameter with an argument its annotation does not accept *)
+  Lemma fits1_no_tv : forall sol sol' (a : @annot V) x, has_tv a = false -> fits1 O sol a x = fits1 O sol' a x.
+  Proof. intros sol sol' [|t|k|k|k j|k r] x H; try discriminate; reflexivity. Qed.
+
+  Lemma cbind_params : forall (s : @csig V) c b p ba, cbind s c = Some b -> In (p, ba) b -> In p (cparams s).
+  Proof.
+    intros s c b p ba H Hin. unfold cbind in H. destruct (bind (sig_of s) (actuals_of c)) as [r|]; [|discriminate].
+    injection H as <-. apply in_map_iff in Hin. destruct Hin as [[q [[n pos] pl]] [He Hc]].
+    injection He as <- _. eapply in_combine_l. exact Hc.
+  Qed.
+
+  (* the diagnostics of a call that binds to a signature without type variables are exactly
+     one incompatible_argument per parameter with an argument its annotation does not accept *)
   Theorem nongeneric_diagnostics : forall s c b,
-    no_vars s = true -> bind s c = Some b ->
-    forall d, In d (fst (check_call O limit val s c)) <->
-      exists p ba t o, In (p, ba) b /\ d = IncompatibleArgument (pname p) /\
-        ann p = AnnTy t /\ In o (objs_of ba) /\ acc O t (val o) = false.
+    no_tv s = true -> cbind s c = Some b ->
+    forall d, In d (fst (check_call O limit s c)) <->
+      exists p vs x, In (p, BVals vs) b /\ d = IncompatibleArgument (pname (cp p)) /\
+        In x vs /\ fits1 O (fun _ => any_generic O) (ann p) x = false.
   Proof.
-    intros s c b Hnv Hb d. unfold check_call. rewrite Hb.
-    assert (Hps : map fst b = params s) by (eapply bind_go_params; exact Hb).
-    unfold no_vars in Hnv. rewrite <- Hps in Hnv.
-    rewrite (no_vars_pass1 (tdecl s) b Hnv), (no_vars_t_values b Hnv). cbn.
-    split.
-    - intros H. destruct (pass2_only_arguments _ _ _ H) as [n ->].
-      apply pass2_in in H. destruct H as [p [ba [Hin [<- Hf]]]].
-      unfold arg_fits in Hf. destruct (ann p) as [|t|] eqn:Ea; cbn in Hf; try discriminate.
-      + assert (Hex : existsb (fun o => negb (acc O t (val o))) (objs_of ba) = true).
-        { clear -Hf. induction (objs_of ba) as [|o l IH]; cbn in *; [discriminate|].
-          destruct (acc O t (val o)); cbn in *; [apply IH, Hf|reflexivity]. }
-        apply existsb_exists in Hex. destruct Hex as [o [Ho Hn]].
-        exists p, ba, t, o. repeat split; auto. destruct (acc O t (val o)); [discriminate|reflexivity].
-      + exfalso. rewrite forallb_forall in Hnv. specialize (Hnv p).
-        rewrite Ea in Hnv. cbn in Hnv. assert (false = true); [|discriminate].
-        apply Hnv. apply in_map_iff. exists (p, ba). auto.
-    - intros [p [ba [t [o [Hin [-> [Ea [Ho Hacc]]]]]]]]. apply pass2_in. exists p, ba. repeat split; auto.
-      rewrite Ea. cbn. apply not_true_is_false. intros Hall. rewrite forallb_forall in Hall.
-      specialize (Hall o Ho). congruence.
+    intros s c b Hnv Hb d.
+    assert (Hall : forallb (fun p => negb (has_tv (ann p))) (map fst b) = true).
+    { apply forallb_forall. intros p Hp. apply in_map_iff in Hp. destruct Hp as [[q ba] [<- Hin]].
+      unfold no_tv in Hnv. rewrite forallb_forall in Hnv. apply Hnv. eapply cbind_params; eassumption. }
+    unfold check_call. rewrite Hb, (no_tv_pass1 s b Hall). cbn. rewrite pass2_in. split.
+    - intros [p [ba [Hin [-> Hf]]]]. destruct ba as [vs|dd]; [|discriminate].
+      cbn in Hf.
+      assert (Hex : existsb (fun x => negb (fits1 O (sol_of O limit []) (ann p) x)) vs = true).
+      { clear -Hf. induction vs as [|x l IH]; cbn in *; [discriminate|].
+        destruct (fits1 O (sol_of O limit []) (ann p) x); cbn in *; [apply IH, Hf|reflexivity]. }
+      apply existsb_exists in Hex. destruct Hex as [x [Hx Hn]].
+      exists p, vs, x. repeat split; auto.
+      assert (Hp : has_tv (ann p) = false).
+      { rewrite forallb_forall in Hall. specialize (Hall p). destruct (has_tv (ann p)); [|reflexivity].
+        assert (negb true = true); [|discriminate]. apply Hall. apply in_map_iff. exists (p, BVals vs). auto. }
+      rewrite (fits1_no_tv _ (sol_of O limit []) _ _ Hp).
+      destruct (fits1 O (sol_of O limit []) (ann p) x); [discriminate|reflexivity].
+    - intros [p [vs [x [Hin [-> [Hx Hf]]]]]]. exists p, (BVals vs). repeat split; auto.
+      cbn. apply not_true_is_false. intros Hallf. rewrite forallb_forall in Hallf.
+      assert (Hp : has_tv (ann p) = false).
+      { rewrite forallb_forall in Hall. specialize (Hall p). destruct (has_tv (ann p)); [|reflexivity].
+        assert (negb true = true); [|discriminate]. apply Hall. apply in_map_iff. exists (p, BVals vs). auto. }
+      rewrite (fits1_no_tv _ (sol_of O limit []) _ _ Hp) in Hf. specialize (Hallf x Hx). congruence.
+  Qed.
+
+  (* with acceptance = runtime membership on literal arguments:
+     diagnosed(call) <=> exists arg: not member(arg, declared(param)) *)
+  Context {Obj : Type} (val : Obj -> V) (member : Obj -> V -> bool).
+  Definition literal_args (b : list (cparam * barg)) : Prop :=
+    forall p vs x, In (p, BVals vs) b -> In x vs -> exists o, x = AV (val o).
+
+  Theorem nongeneric_diagnosed_iff_nonmember_on : forall s c b,
+    no_tv s = true -> cbind s c = Some b -> literal_args b ->
+    (* acceptance = membership is only needed on the (declared type, literal) pairs of this call *)
+    (forall p vs t o, In (p, BVals vs) b -> ann p = AnnTy t -> In (AV (val o)) vs ->
+        acc O t (val o) = member o t) ->
+    (diagnosed O limit s c = true <->
+     exists p vs t o, In (p, BVals vs) b /\ ann p = AnnTy t /\ In (AV (val o)) vs /\ member o t = false).
+  Proof.
+    intros s c b Hnv Hb Hlit Ham. unfold diagnosed. split.
+    - destruct (fst (check_call O limit s c)) as [|d l] eqn:E; [discriminate|]. intros _.
+      assert (Hd : In d (fst (check_call O limit s c))) by (rewrite E; left; reflexivity).
+      apply (nongeneric_diagnostics s c b Hnv Hb) in Hd.
+      destruct Hd as [p [vs [x [Hin [_ [Hx Hf]]]]]].
+      destruct (Hlit p vs x Hin Hx) as [o ->].
+      assert (Hp : has_tv (ann p) = false).
+      { unfold no_tv in Hnv. rewrite forallb_forall in Hnv. specialize (Hnv p (cbind_params s c b p _ Hb Hin)).
+        destruct (has_tv (ann p)); [discriminate|reflexivity]. }
+      destruct (ann p) as [|t|k|k|k j|k r] eqn:Ea; cbn in Hf, Hp; try discriminate.
+      exists p, vs, t, o. rewrite <- (Ham p vs t o Hin Ea Hx). auto.
+    - intros [p [vs [t [o [Hin [Ea [Hx Hm]]]]]]].
+      assert (Hd : In (IncompatibleArgument (pname (cp p))) (fst (check_call O limit s c))).
+      { apply (nongeneric_diagnostics s c b Hnv Hb). exists p, vs, (AV (val o)). repeat split; auto.
+        rewrite Ea. cbn. rewrite (Ham p vs t o Hin Ea Hx). exact Hm. }
+      destruct (fst (check_call O limit s c)); [destruct Hd|reflexivity].
   Qed.
 
   Hypothesis acc_member : forall t o, acc O t (val o) = member o t.
 
-  (* diagnosed(call) <=> exists arg: not member(arg, declared(param)) *)
   Theorem nongeneric_diagnosed_iff_nonmember : forall s c b,
-    no_vars s = true -> bind s c = Some b ->
-    (diagnosed O limit val s c = true <->
-     exists p ba t o, In (p, ba) b /\ ann p = AnnTy t /\ In o (objs_of ba) /\ member o t = false).
+    no_tv s = true -> cbind s c = Some b -> literal_args b ->
+    (diagnosed O limit s c = true <->
+     exists p vs t o, In (p, BVals vs) b /\ ann p = AnnTy t /\ In (AV (val o)) vs /\ member o t = false).
   Proof.
-    intros s c b Hnv Hb. unfold diagnosed. split.
-    - destruct (fst (check_call O limit val s c)) as [|d l] eqn:E; [discriminate|]. intros _.
-      assert (Hd : In d (fst (check_call O limit val s c))) by (rewrite E; left; reflexivity).
-      apply (nongeneric_diagnostics s c b Hnv Hb) in Hd.
-      destruct Hd as [p [ba [t [o [Hin [_ [Ea [Ho Hacc]]]]]]]]. rewrite acc_member in Hacc. eauto 8.
-    - intros [p [ba [t [o [Hin [Ea [Ho Hm]]]]]]].
-      assert (Hd : In (IncompatibleArgument (pname p)) (fst (check_call O limit val s c))).
-      { apply (nongeneric_diagnostics s c b Hnv Hb). exists p, ba, t, o. rewrite acc_member. auto 8. }
-      destruct (fst (check_call O limit val s c)); [destruct Hd|reflexivity].
+    intros s c b Hnv Hb Hlit. apply nongeneric_diagnosed_iff_nonmember_on; auto.
   Qed.
 
-  (* generic or not: an accepted call has a solution under which every argument
-     is a member of the substituted parameter type (otherwise an error is reported) *)
-  Theorem accepted_call_arguments_fit : forall s c,
-    diagnosed O limit val s c = false ->
-    exists b sol, bind s c = Some b /\ snd (check_call O limit val s c) = inferred O sol (ret s) /\
-      forall p ba t o, In (p, ba) b -> sub sol (ann p) = Some t -> In o (objs_of ba) -> member o t = true.
-  Proof.
-    intros s c Hd. unfold diagnosed in Hd.
-    destruct (fst (check_call O limit val s c)) eqn:E; [|discriminate].
-    pose proof E as E'. apply check_call_accepted_iff in E. destruct E as [b [sol [Hb [H1 [Hr Hfit]]]]].
-    exists b, sol. split; [exact Hb|]. split.
-    - unfold check_call. rewrite Hb, H1, Hr. reflexivity.
-    - intros p ba t o Hin Hs Ho. specialize (Hfit p ba Hin). unfold arg_fits in Hfit. rewrite Hs in Hfit.
-      rewrite forallb_forall in Hfit. rewrite <- acc_member. apply Hfit, Ho.
-  Qed.
-
+  (* ---- with C15: a positional / keyword argument passed for a parameter annotated T_k is
+     always accepted by the value chosen for T_k (the second pass never reports it) ---- *)
   Hypothesis L : acc_laws O.
 
-  (* with C15: the second pass never reports a parameter annotated with the bare
-     type variable — the solution accepts every such argument *)
-  Theorem solution_accepts_typevar_arguments : forall d (b : list (param * barg)) sol p ba,
-    mresolve O limit (flat_map (arg_bounds d) (t_values val b)) = Sol sol ->
-    In (p, ba) b -> ann p = AnnVar -> arg_fits O val (sub sol (ann p)) ba = true.
+  Lemma both_some : forall {A} (x y : option (list A)) l, both x y = Some l ->
+    exists a b, x = Some a /\ y = Some b /\ l = a ++ b.
+  Proof. intros A [a|] [b|] l H; cbn in H; try discriminate. injection H as <-. eauto. Qed.
+
+  Lemma pass1_incl : forall s (b : list (cparam * barg)) l p vs,
+    pass1 O limit s b = inr l -> In (p, BVals vs) b -> has_tv (ann p) = true ->
+    exists l0, gen_bounds O limit s (ann p) vs = Some l0 /\ incl l0 l.
   Proof.
-    intros d b sol p ba Hr Hin Ea. rewrite Ea. cbn. apply forallb_forall. intros o Ho.
-    eapply mresolve_lower; [exact L|exact Hr|].
-    apply in_flat_map. exists (val o). split; [|left; reflexivity].
-    unfold t_values. apply in_flat_map. exists (p, ba). split; [exact Hin|].
-    rewrite Ea. cbn. apply in_map, Ho.
+    intros s b. induction b as [|[q qa] b IH]; intros l p vs H Hin Htv; [destruct Hin|].
+    cbn in H.
+    destruct (if has_tv (ann q) then _ else Some []) as [here|] eqn:Eh; [|discriminate].
+    destruct (pass1 O limit s b) as [n|l'] eqn:Ep; [discriminate|]. injection H as <-.
+    destruct Hin as [Hq|Hin].
+    - injection Hq as -> ->. rewrite Htv in Eh. exists here. split; [exact Eh|].
+      intros z Hz. apply in_or_app. left. exact Hz.
+    - destruct (IH l' p vs eq_refl Hin Htv) as [l0 [Hg Hi]]. exists l0. split; [exact Hg|].
+      intros z Hz. apply in_or_app. right. apply Hi, Hz.
   Qed.
 
-  (* hence, for a call that binds: accepted <=> every T-argument fits the declaration on its
-     own, the bounds are solvable, and every other argument is a member of its declared type *)
-  Theorem generic_accepted_iff : forall s c b,
-    bind s c = Some b ->
-    (diagnosed O limit val s c = false <->
-     pass1_fail O limit val (tdecl s) b = None /\
-     is_err (mresolve O limit (flat_map (arg_bounds (tdecl s)) (t_values val b))) = false /\
-     forall p ba t o, In (p, ba) b -> ann p = AnnTy t -> In o (objs_of ba) -> member o t = true).
+  Lemma bounds_for_in : forall k b (l : list (@tagged V)), In (k, b) l -> In b (bounds_for k l).
   Proof.
-    intros s c b Hb. unfold diagnosed. split.
-    - destruct (fst (check_call O limit val s c)) eqn:E; [|discriminate]. intros _.
-      apply check_call_accepted_iff in E. destruct E as [b' [sol [Hb' [H1 [Hr Hfit]]]]].
-      assert (b' = b) by congruence. subst b'. split; [exact H1|]. split; [rewrite Hr; reflexivity|].
-      intros p ba t o Hin Ea Ho. specialize (Hfit p ba Hin). rewrite Ea in Hfit. cbn in Hfit.
-      rewrite forallb_forall in Hfit. rewrite <- acc_member. apply Hfit, Ho.
-    - intros [H1 [Hr Hm]].
-      destruct (mresolve O limit (flat_map (arg_bounds (tdecl s)) (t_values val b))) as [sol|] eqn:Er; [|discriminate].
-      assert (E : fst (check_call O limit val s c) = []).
-      { apply check_call_accepted_iff. exists b, sol. repeat split; auto.
-        intros p ba Hin. destruct (ann p) as [|t|] eqn:Ea.
-        - reflexivity.
-        - cbn. apply forallb_forall. intros o Ho. rewrite acc_member. eapply Hm; eassumption.
-        - rewrite <- Ea. eapply solution_accepts_typevar_arguments; eassumption. }
-      rewrite E. reflexivity.
+    intros k b l H. unfold bounds_for. apply in_flat_map. exists (k, b). split; [exact H|].
+    rewrite Nat.eqb_refl. left. reflexivity.
   Qed.
 
-  (* the inferred type of `-> T` contains every argument passed for a parameter annotated T *)
-  Theorem identity_result_member : forall s c b p ba o,
-    ret s = AnnVar -> diagnosed O limit val s c = false -> bind s c = Some b ->
-    In (p, ba) b -> ann p = AnnVar -> In o (objs_of ba) ->
-    member o (snd (check_call O limit val s c)) = true.
+  Theorem typevar_argument_accepted_by_solution : forall s (b : list (cparam * barg)) l p k v,
+    pass1 O limit s b = inr l -> resolve_ok O limit l = true ->
+    In (p, BVals [AV v]) b -> ann p = AnnVar k ->
+    acc O (sol_of O limit l k) v = true.
   Proof.
-    intros s c b p ba o Hret Hd Hb Hin Ea Ho.
+    intros s b l p k v Hp Hr Hin Ea.
+    destruct (pass1_incl s b l p [AV v] Hp Hin) as [l0 [Hg Hi]]; [rewrite Ea; reflexivity|].
+    rewrite Ea in Hg. cbn in Hg. unfold lower_gen in Hg.
+    destruct (is_err (mresolve O limit (arg_bounds (decl_of s k) v))); [discriminate|].
+    injection Hg as <-.
+    assert (Hk : In (k, LowerBound v) l) by (apply Hi; left; reflexivity).
+    pose proof (bounds_for_in k _ l Hk) as Hb.
+    unfold sol_of, solved. destruct (bounds_for k l) as [|b0 bs] eqn:Eb; [destruct Hb|].
+    rewrite <- Eb in *.
+    assert (Hok : is_err (solved O limit l k) = false).
+    { unfold resolve_ok in Hr. rewrite forallb_forall in Hr. specialize (Hr k).
+      destruct (is_err (solved O limit l k)); [|reflexivity].
+      assert (negb true = true); [|discriminate]. apply Hr. unfold tvs. apply in_map_iff. exists (k, LowerBound v). auto. }
+    unfold solved in Hok. rewrite Eb in Hok. rewrite <- Eb in Hok.
+    destruct (mresolve O limit (bounds_for k l)) as [w|] eqn:Em; [|discriminate].
+    eapply mresolve_lower; [exact L|exact Em|exact Hb].
+  Qed.
+
+  (* any lower bound that reached the solver is accepted by the value chosen *)
+  Lemma tagged_lower_accepted : forall (l : list (@tagged V)) k v,
+    resolve_ok O limit l = true -> In (k, LowerBound v) l -> acc O (sol_of O limit l k) v = true.
+  Proof.
+    intros l k v Hr Hk.
+    pose proof (bounds_for_in k _ l Hk) as Hb.
+    assert (Hok : is_err (solved O limit l k) = false).
+    { unfold resolve_ok in Hr. rewrite forallb_forall in Hr. specialize (Hr k).
+      destruct (is_err (solved O limit l k)); [|reflexivity].
+      assert (negb true = true); [|discriminate]. apply Hr. unfold tvs. apply in_map_iff. exists (k, LowerBound v). auto. }
+    unfold sol_of. unfold solved in *. destruct (bounds_for k l) as [|b0 bs] eqn:Eb; [destruct Hb|].
+    rewrite <- Eb in *.
+    destruct (mresolve O limit (bounds_for k l)) as [w|] eqn:Em; [|discriminate].
+    eapply mresolve_lower; [exact L|exact Em|exact Hb].
+  Qed.
+
+  Lemma lower_gen_in : forall s k v l0, lower_gen O limit s k v = Some l0 -> In (k, LowerBound v) l0.
+  Proof.
+    intros s k v l0 H. unfold lower_gen in H.
+    destruct (is_err (mresolve O limit (arg_bounds (decl_of s k) v))); [discriminate|].
+    injection H as <-. left. reflexivity.
+  Qed.
+
+  (* the same through the generic forms: the element type of a list[T_k] argument, the key and
+     value types of a dict[T_k, T_j] argument and the result type of a Callable[.., T_j] argument
+     are accepted by the values chosen — so the second pass can only fail on concretely typed
+     parameters and on a callback's parameter type (the upper-bound position) *)
+  Theorem generic_lower_positions_accepted : forall s (b : list (cparam * barg)) l p,
+    pass1 O limit s b = inr l -> resolve_ok O limit l = true ->
+    (forall k e, In (p, BVals [AList e]) b -> ann p = AnnList k -> acc O (sol_of O limit l k) e = true) /\
+    (forall k j kk vv, In (p, BVals [ADict kk vv]) b -> ann p = AnnDict k j ->
+        acc O (sol_of O limit l k) kk = true /\ acc O (sol_of O limit l j) vv = true) /\
+    (forall k j pv qv, In (p, BVals [AFun pv qv]) b -> ann p = AnnFun k (RVar j) ->
+        acc O (sol_of O limit l j) qv = true).
+  Proof.
+    intros s b l p Hp Hr. repeat split.
+    - intros k e Hin Ea.
+      destruct (pass1_incl s b l p [AList e] Hp Hin) as [l0 [Hg Hi]]; [rewrite Ea; reflexivity|].
+      rewrite Ea in Hg. cbn in Hg. apply both_some in Hg. destruct Hg as [a [c [Ha [_ ->]]]].
+      apply tagged_lower_accepted; [exact Hr|]. apply Hi, in_or_app. left. eapply lower_gen_in, Ha.
+    - destruct (pass1_incl s b l p [ADict kk vv] Hp H) as [l0 [Hg Hi]]; [rewrite H0; reflexivity|].
+      rewrite H0 in Hg. cbn in Hg. apply both_some in Hg. destruct Hg as [a [c [Ha [_ ->]]]].
+      apply both_some in Ha. destruct Ha as [a1 [a2 [H1 [H2 ->]]]].
+      apply tagged_lower_accepted; [exact Hr|]. apply Hi, in_or_app. left. apply in_or_app. left.
+      eapply lower_gen_in, H1.
+    - destruct (pass1_incl s b l p [ADict kk vv] Hp H) as [l0 [Hg Hi]]; [rewrite H0; reflexivity|].
+      rewrite H0 in Hg. cbn in Hg. apply both_some in Hg. destruct Hg as [a [c [Ha [_ ->]]]].
+      apply both_some in Ha. destruct Ha as [a1 [a2 [H1 [H2 ->]]]].
+      apply tagged_lower_accepted; [exact Hr|]. apply Hi, in_or_app. left. apply in_or_app. right.
+      eapply lower_gen_in, H2.
+    - intros k j pv qv Hin Ea.
+      destruct (pass1_incl s b l p [AFun pv qv] Hp Hin) as [l0 [Hg Hi]]; [rewrite Ea; reflexivity|].
+      rewrite Ea in Hg. cbn in Hg. apply both_some in Hg. destruct Hg as [a [c [Ha [_ ->]]]].
+      apply both_some in Ha. destruct Ha as [a1 [a2 [H1 [H2 ->]]]].
+      apply tagged_lower_accepted; [exact Hr|]. apply Hi, in_or_app. left. apply in_or_app. right.
+      eapply lower_gen_in, H2.
+  Qed.
+
+  (* the inferred type of `-> T_k` contains every literal passed (positionally or by
+     keyword) for a parameter annotated T_k *)
+  Theorem identity_result_member : forall s c b p k o,
+    cret s = RVar k -> diagnosed O limit s c = false -> cbind s c = Some b ->
+    In (p, BVals [AV (val o)]) b -> ann p = AnnVar k ->
+    member o (snd (check_call O limit s c)) = true.
+  Proof.
+    intros s c b p k o Hret Hd Hb Hin Ea.
     destruct (accepted_call_arguments_fit s c Hd) as [b' [sol [Hb' [Hsnd Hfit]]]].
     assert (b' = b) by congruence. subst b'. rewrite Hsnd, Hret. cbn.
-    eapply Hfit; [exact Hin| |exact Ho]. rewrite Ea. reflexivity.
+    specialize (Hfit p [AV (val o)] (AV (val o)) Hin (or_introl eq_refl)).
+    rewrite Ea in Hfit. cbn in Hfit. rewrite <- acc_member. exact Hfit.
   Qed.
-End CallMain.
+End CallThms.
